@@ -2,7 +2,7 @@
 NOT_CLAIMED = {}
 # properties whose builder-delivered check has been reviewed, run on the unchanged tree and against seeded changes by the
 # orchestrator; only these are read from harness/props/cXX.py CLAIM dicts
-INTEGRATED = {"C02", "C05", "C07", "C08", "C09", "C10", "C11", "C12", "C13", "C14", "C15", "C16", "C17", "C19", "C20"}
+INTEGRATED = {"C01", "C02", "C03", "C04", "C05", "C07", "C08", "C09", "C10", "C11", "C12", "C13", "C14", "C15", "C16", "C17", "C18", "C19", "C20"}
 CLAIMED["C06"] = dict(
     technique="Coq proof (induction over add_phase/set_state/call histories) + theorems re-proved on tables generated from the live engine + exhaustive state x method correspondence",
     text="Machine-checked theorems over a Gallina model of lifecycle.py for ALL life cycles and ALL request/call sequences (links = declarative order, trace legality, refusals inert and deletable); engine-specific theorems (every context method atomic from every state, run = step^n for every n, events emitted in their own state, documented order) are re-proved on every run against scripts and phases recorded from the live engine; the model is tied to the code by an exhaustive 10 states x 13 methods table on real contexts plus generated life cycles/request sequences, agreement decided inside Coq by vm_compute.",
